@@ -460,7 +460,7 @@ pub fn horizon_of(case: &Case) -> u64 {
     for c in &case.clients {
         for op in c {
             match op {
-                ClientOp::Send { work, .. } | ClientOp::Call { work, .. } | ClientOp::CallDrop { work, .. } | ClientOp::SendRepoll { work, .. } => {
+                ClientOp::Send { work, .. } | ClientOp::Call { work, .. } | ClientOp::CallDrop { work, .. } | ClientOp::SendRepoll { work, .. } | ClientOp::SendDrop { work, .. } => {
                     total += steps_sleep(work);
                     for s in work {
                         if let Step::AddTimer(ts) = s {
@@ -639,6 +639,24 @@ async fn exec_op(me: usize, opi: usize, op: &ClientOp, table: &mut Table, all: &
                 _ => unreachable!(),
             };
             end(me, opi, res_reply(r), polls);
+        }
+        ClientOp::SendDrop { h, work, polls } => {
+            let i = need!(me, opi, table, *h, |k| matches!(k, K::Addr | K::Owning | K::Sender | K::WeakSender));
+            let held = table[i].as_ref().unwrap();
+            let id = msg_id(me, opi);
+            let m = Cast { msg: MsgRef::Client(id), work: Arc::new(work.clone()) };
+            begin(me, opi, OpWhat::SendAbandoned, Some(held), Some(id));
+            let fut: Pin<Box<dyn Future<Output = Result<(), hannibal::error::ActorError>> + '_>> = match &held.h {
+                H::Addr(a) => Box::pin(async move { on_any!(a, AnyAddr, a => a.send(m).await) }),
+                H::Owning(a) => Box::pin(async move { on_any!(a, AnyOwning, a => a.send(m).await) }),
+                H::Sender(s) => Box::pin(s.send(m)),
+                H::WeakSender(s) => Box::pin(s.try_send(m)),
+                _ => unreachable!(),
+            };
+            match (PollThenDrop { f: Some(fut), left: *polls as u32 + 1 }).await {
+                Some(r) => end(me, opi, res_unit(r), *polls as u32),
+                None => end(me, opi, OpRes::Abandoned, *polls as u32),
+            }
         }
         ClientOp::SendRepoll { h, work, extra } => {
             let i = need!(me, opi, table, *h, |k| matches!(k, K::Addr | K::Owning | K::Sender | K::WeakSender));
